@@ -122,6 +122,9 @@ def fresh (n : Nat) : List Byte := List.replicate n none
 /-- `capacity | 0x3` -/
 def capRule (n : Nat) : Nat := n ||| Generated.capMask
 
+/-- `length | 0x3` of the copying constructors and `operator=` -/
+def ctorRule (n : Nat) : Nat := n ||| Generated.ctorMask
+
 /-! ### the heap primitives -/
 
 /-- `if(data->ref && Atomic::decrement(data->ref) == 0) delete[] (char*)data;` -/
@@ -178,12 +181,12 @@ def attach (s : St) (v : Nat) (r off len : Nat) : St := setForeign s v r off len
 
 /-- the block `String(const char* str, usize length)` builds: chars, NUL, capacity `length | 3` -/
 def mkBlock (src : List Byte) : Option (List Byte) :=
-  wr (fresh (capRule src.length + 1)) 0 (src ++ [some 0])
+  wr (fresh (ctorRule src.length + 1)) 0 (src ++ [some 0])
 
 /-- `String(const char* str, usize length)` into an empty slot -/
 def ctorPtr (s : St) (v : Nat) (src : List Byte) : Option St := do
   let m ← mkBlock src
-  pure (allocSet s v m src.length (capRule src.length))
+  pure (allocSet s v m src.length (ctorRule src.length))
 
 /-- `String(usize length, char c)` -/
 def ctorFill (s : St) (v : Nat) (n c : Nat) : Option St := ctorPtr s v (List.replicate n (some c))
